@@ -22,7 +22,8 @@ VOCABULARY (trusted; coq/EnuVocab.v has the same table next to the definitions):
   Eigen::Affine3d::Identity() / a.setIdentity() -> aff_identity;   a.translation() [=] -> aff_translation / aff_set_translation;
   a.linear() [=] -> aff_linear / aff_set_linear;   a.linear().col(k) << x, y, z  (k a literal 0..2) -> aff_set_col<k> a (mkV3 x y z);
   a * p -> aff_apply N a p (= linear*p + translation);   a.inverse() (default traits) -> aff_inverse N a (Eigen's cofactor inverse
-  of the 3x3 block, translation -(inverse*translation));   (Eigen::Vector3d() << x, y, z).finished() -> mkV3 x y z (in order);
+  of the 3x3 block, translation -(inverse*translation));   (Eigen::Vector3d() << x, y, z).finished() and Eigen::Vector3d(x, y, z)
+  -> mkV3 x y z (in order);
   GeodeticCoordinates() and the member initialiser g_() (value-initialisation, clang: zeroing) -> geo_zero;
   makeGeodeticCoordinates(w, h) -> mkGeo (w_lat w) (w_lon w) h,  makeGeodeticCoordinates(lat, lon, h) -> mkGeo lat lon h;
   ecefConverter_.toECEF(g) -> F_toECEF g;   ecefConverter_.toWGS84(p) -> F_toWGS84 p : option (None = the latitude loop of
@@ -198,6 +199,9 @@ class Enu(I.Imp):
 
     def ev(self, n, env):
         k = n.get("kind")
+        if k in ("CXXConstructExpr", "CXXTemporaryObjectExpr") and len(self.args_of(n, 0)) == 3 and \
+                sort_of(n.get("type", {}).get("qualType", "")) == "vec":
+            return Val(self.three_scalars(self.args_of(n, 0), env, "Eigen::Vector3d(x, y, z)"), "vec")
         if k in ("CXXConstructExpr", "CXXTemporaryObjectExpr") and not self.args_of(n, 0):
             ty = n.get("type", {}).get("qualType", "")
             if sort_of(ty) == "geo" and n.get("zeroing"):
